@@ -117,6 +117,13 @@ def scenarios():
     # closed computing loop: run_coroutine_threadsafe raises RuntimeError -> retry (C06-m1)
     out.append(mk([thr([[0, 0, -1]], stop=1, epi=(('close', 1),)), thr([[0, 0, -1]])],
                   [[50, 1], [2, 1]], [0] * 8 + [1] * 6 + [0] * 6))
+    # a computation longer than the 60 s safety window on a LIVE loop with waiters on the same loop and
+    # on another loop: the waiters time out, look again, find the marker alive and wait again (C01-m4)
+    out.append(mk([thr([[0, 0, -1], [0, 1, -1]]), thr([[0, 2, -1]])], [[70000, 1], [5, 1], [5, 1]]))
+    out.append(mk([thr([[0, 0, -1]]), thr([[0, 1, -1], [0, 61441, -1]])], [[130000, 0], [3, 1], [3, 1]]))
+    # the wrapped callable raises synchronously (before returning its awaitable): nothing is cached,
+    # the marker is retired, a later caller computes afresh (C05-m3)
+    out.append(mk([thr([[0, 0, -1], [0, 1, -1], [0, 5, -1]]), thr([[0, 3, -1]])], [[-2, 0], [4, 1], [4, 1]]))
     # two keys, zero-duration computations
     out.append(mk([thr([[0, 0, -1], [1, 0, -1]]), thr([[1, 0, -1], [0, 0, -1]])],
                   [[-1, 1], [0, 1], [0, 0], [-1, 1]], [0, 1] * 30))
@@ -266,7 +273,14 @@ def rand_case(rnd, big=False):
         threads.append(thr(callers, stop, epi))
     invs = []
     for _ in range(rnd.randint(2, 8)):
-        invs.append([rnd.choice([-1, 0, 0, 1, 2, 5, 12]), 1 if rnd.random() < 0.7 else 0])
+        d = rnd.choice([-1, 0, 0, 1, 2, 5, 12])
+        ok = 1 if rnd.random() < 0.7 else 0
+        x = rnd.random()
+        if x < 0.04:
+            d, ok = -2, 0                               # raises synchronously at call time
+        elif x < 0.10:
+            d = SAFETY + rnd.choice([1, 500, 9000, SAFETY + 7])   # outlives the 60 s safety window
+        invs.append([d, ok])
     stay = rnd.choice([0.0, 0.3, 0.6, 0.85])
     sched, last = [], rnd.randrange(nT)
     for _ in range(rnd.choice([60, 150, 400])):
